@@ -10,52 +10,78 @@ def gen(rng: random.Random, tier: str):
     for _ in range(n):
         lists = []
         for u in range(rng.randint(1, 4)):
-            k = rng.randint(0, 4)
-            lists.append({"user": 10 + u, "run": rng.choice(["a", "b"]), "preds": [None if rng.random() < 0.25 else rng.randint(1, 10) / 2 for _ in range(k)],
-                          "truth": [rng.randint(1, 10) / 2 for _ in range(k)], "has_test": rng.random() < 0.85})
-        yield {"lists": lists, "metric": rng.choice(["rmse", "mae"]), "two_level_key": rng.random() < 0.5}
+            k = rng.randint(0, 4); items = rng.sample(range(8), k)
+            preds = [None if rng.random() < 0.25 else rng.randint(1, 10) / 2 for _ in range(k)]
+            # the test list rates a subset of the scored items (the rest have "missing truth") plus some items that were not scored at all
+            truth = {i: rng.randint(1, 10) / 2 for i in items if rng.random() < 0.75}
+            for i in rng.sample(range(8, 12), rng.choice([0, 0, 1, 2])): truth[i] = rng.randint(1, 10) / 2
+            lists.append({"user": 10 + u, "run": rng.choice(["a", "b"]), "items": items, "preds": preds, "truth": [[i, r] for i, r in truth.items()],
+                          "has_test": rng.random() < 0.85, "test_empty": rng.random() < 0.12})
+        yield {"lists": lists, "metric": rng.choice(["rmse", "mae"]), "two_level_key": rng.random() < 0.5,
+               "ms": rng.choice(["ignore", "ignore", "ignore", "error"]), "mt": rng.choice(["ignore", "ignore", "ignore", "error"])}
+
+def _norm(case):
+    """older corpus / replay cases: items = positions, truth = parallel list"""
+    for l in case["lists"]:
+        if "items" not in l:
+            l["items"] = list(range(len(l["preds"]))); l["truth"] = [[i, r] for i, r in enumerate(l["truth"])]; l.setdefault("test_empty", False)
+    case.setdefault("ms", "ignore"); case.setdefault("mt", "ignore")
+    return case
 
 def run(case: dict, lean: Lean) -> Outcome:
     from lenskit.data import ItemList, ItemListCollection
-    from lenskit.metrics import RunAnalysis, RMSE, MAE
+    from lenskit.metrics import RunAnalysis, RMSE, MAE, ListLength, TestItemCount
     from lenskit.metrics.ranking import Recall
+    case = _norm(dict(case, lists=[dict(l) for l in case["lists"]]))
     sq = case["metric"] == "rmse"; cls = RMSE if sq else MAE
     two = case["two_level_key"]
     out = ItemListCollection(["user_id", "run"] if two else ["user_id"]); test = ItemListCollection(["user_id"])
-    used = []; seen_keys = set(); seen_users = set()
+    used = []; seen_keys = set(); seen_users = set(); tl = {}
     for l in case["lists"]:
         key = (l["user"], l["run"]) if two else (l["user"],)
         if key in seen_keys: continue
         seen_keys.add(key); used.append(l)
-        items = np.arange(len(l["preds"]), dtype=np.int64)
-        out.add(ItemList(item_ids=items, scores=np.array([np.nan if p is None else p for p in l["preds"]], dtype=np.float64), ordered=True), *key)
+        out.add(ItemList(item_ids=np.array(l["items"], dtype=np.int64), scores=np.array([np.nan if p is None else p for p in l["preds"]], dtype=np.float64), ordered=True), *key)
         if l["has_test"] and l["user"] not in seen_users:
-            test.add(ItemList(item_ids=items, rating=np.array(l["truth"], dtype=np.float64)), l["user"])
+            tr = [] if l["test_empty"] else l["truth"]
+            test.add(ItemList(item_ids=np.array([i for i, _ in tr], dtype=np.int64), rating=np.array([r for _, r in tr], dtype=np.float64)), l["user"])
+            tl[l["user"]] = dict((i, r) for i, r in tr)
         seen_users.add(l["user"])
-    have_test = {k[0] for k in test.keys()}
-    metric = cls(missing_scores="ignore"); rec = Recall(2)
-    ra = RunAnalysis(); ra.add_metric(metric); ra.add_metric(rec)
-    failed = []; key = None
+    have_test = set(tl)
+    metric = cls(missing_scores=case["ms"], missing_truth=case["mt"]); rec = Recall(2)
+    def custom(recs, test_l): return float(len(recs) * 10 + len(test_l))          # a list-wise function metric with a value for every pair of lists
+    ra = RunAnalysis(); ra.add_metric(metric); ra.add_metric(rec); ra.add_metric(ListLength()); ra.add_metric(TestItemCount()); ra.add_metric(custom, "custom", default=-1.0)
+    # aligned pairs (outer join) for the model, lists with test data in output order
+    usable = [l for l in used if l["user"] in have_test]
+    mlists = []
+    for l in usable:
+        truth = tl[l["user"]]; pm = dict(zip(l["items"], l["preds"]))
+        mlists.append([[None if pm.get(i) is None else rat(pm[i]), None if i not in truth else rat(truth[i])] for i in sorted(set(pm) | set(truth))])
+    margs = {"lists": mlists, "sq": sq, "ms": case["ms"], "mt": case["mt"]}
+    as_is = lean.call("c07.global", {**margs, "variant": "asIs"}); rep = lean.call("c07.global", {**margs, "variant": "repaired"})
+    failed = []; key = None; keys = []
+    classes = [case["metric"]]
+    if two: classes.append("projected key")
+    if any(p is None for l in used for p in l["preds"]): classes.append("missing predictions")
+    if any(set(l["items"]) - set(tl.get(l["user"], {})) for l in usable): classes.append("scored item without truth")
+    if any(set(tl.get(l["user"], {})) - set(l["items"]) for l in usable): classes.append("rated item not scored")
+    if any(l["user"] not in have_test for l in used): classes.append("output without test list")
+    if any(not l["preds"] for l in used): classes.append("empty list")
+    if any(u in tl and not tl[u] for u in tl): classes.append("empty test list")
+    if "error" in (case["ms"], case["mt"]): classes.append("error disposition")
     try:
         with np.errstate(all="ignore"):
             res = ra.measure(out, test)
         lm = res.list_metrics(fill_missing=False); lmf = res.list_metrics(); summ = res.list_summary(); gl = float(res.global_metrics().iloc[0])
     except Exception as e:
+        if isinstance(e, ValueError) and "error" in rep:        # a configured `error` disposition rejects the run, as the model says
+            classes.append("rejected by disposition")
+            return Outcome("error" in as_is, True, tuple(classes), {"error": str(e)[:80], "model": rep}, None)
         k0 = "MAE.global_aggregate raises UnboundLocalError when no list has test data" if (isinstance(e, UnboundLocalError) and not sq and not have_test) else None
         return Outcome(False, False, ("analysis raised",), {"error": type(e).__name__ + ": " + str(e)[:80]}, k0)
+    if "error" in rep:
+        return Outcome(False, False, tuple(classes), {"failed": ["the configured error disposition did not reject the run"], "model": rep}, None)
     mname = lm.columns[0]; rname = lm.columns[1]
-    # correspondence with the model of the decomposed computation (lists with test data, in output order)
-    usable = [l for l in used if l["user"] in have_test]
-    tl = {}
-    for l in used:
-        if l["has_test"] and l["user"] not in tl: tl[l["user"]] = l["truth"]
-    mlists = []
-    for l in usable:
-        truth = tl[l["user"]]; k = min(len(truth), len(l["preds"]))
-        # the output list may belong to a later run of the same user: its predictions meet that user's test ratings item by item
-        mlists.append([[None if (j >= len(l["preds"]) or l["preds"][j] is None) else rat(l["preds"][j]), rat(truth[j]) if j < len(truth) else None] for j in range(max(len(truth), len(l["preds"])))])
-    mlists = [[p for p in ml if p[1] is not None] for ml in mlists]
-    as_is = lean.call("c07.global", {"lists": mlists, "sq": sq, "variant": "asIs"}); rep = lean.call("c07.global", {"lists": mlists, "sq": sq, "variant": "repaired"})
     def close(x, q):
         if q is None: return x is None or (isinstance(x, float) and math.isnan(x))
         if x is None or math.isnan(x): return False
@@ -70,39 +96,52 @@ def run(case: dict, lean: Lean) -> Outcome:
     corr = ok_as or ok_rep
     if not ok_rep: failed.append("RMSE/MAE per-list or pooled value differs from the definition over usable pairs")
     # each reported per-list value is the metric's own value for that output and the projected test list
+    own = {mname: lambda o, t: float(metric.measure_list(o, t)), rname: lambda o, t: float(rec.measure_list(o, t)),
+           "N": lambda o, t: float(len(o)), "TestItemCount": lambda o, t: float(len(t)), "custom": custom}
     for l in used:
         k = (l["user"], l["run"]) if two else l["user"]
-        v = float(lm.loc[k, rname])
-        if l["user"] in have_test:
-            want = float(rec.measure_list(out.lookup(*((l["user"], l["run"]) if two else (l["user"],))), test.lookup(l["user"])))
-            if math.isnan(want) and v == 0.0: failed.append(f"fill_missing=False: key {k} has an undefined value but reports the default")
-            elif not ((math.isnan(v) and math.isnan(want)) or abs(v - want) < 1e-12): failed.append(f"Recall for key {k}: reported {v}, metric gives {want}")
-        elif not math.isnan(v): failed.append(f"fill_missing=False: key {k} has no test list but reports {v}")
-    # summary statistics are mean / median / std of the default-filled values
-    col = lmf[rname].astype(float)
-    for stat, want in (("mean", col.mean()), ("median", col.median()), ("std", col.std())):
-        got = float(summ.loc[rname, stat])
-        if not ((math.isnan(got) and math.isnan(want)) or abs(got - want) < 1e-9): failed.append(f"summary {stat} = {got}, want {want}")
-    if failed:
+        for col, fn in own.items():
+            v = float(lm.loc[k, col])
+            if l["user"] in have_test:
+                try:
+                    with np.errstate(all="ignore"):
+                        want = fn(out.lookup(*((l["user"], l["run"]) if two else (l["user"],))), test.lookup(l["user"]))
+                except Exception as e:
+                    failed.append(f"{col} for key {k}: the metric's own measure_list raises {type(e).__name__}")
+                    if col == mname and not sq and isinstance(e, AttributeError): keys.append("MAE.measure_list raises AttributeError when no pair is usable")
+                    continue
+                if math.isnan(want) and not math.isnan(v): failed.append(f"fill_missing=False: key {k} has an undefined {col} but reports {v}")
+                elif not ((math.isnan(v) and math.isnan(want)) or abs(v - want) < 1e-9): failed.append(f"{col} for key {k}: reported {v}, the metric itself gives {want}")
+            elif not math.isnan(v): failed.append(f"fill_missing=False: key {k} has no test list but reports {col} = {v}")
+    # default substitution and summary statistics (mean / median / std of the default-filled values)
+    for l in used:
+        k = (l["user"], l["run"]) if two else l["user"]
+        if l["user"] not in have_test and float(lmf.loc[k, "custom"]) != -1.0: failed.append(f"default not substituted for key {k}")
+    for col in (rname, "N", "custom"):
+        c = lmf[col].astype(float)
+        for stat, want in (("mean", c.mean()), ("median", c.median()), ("std", c.std())):
+            got = float(summ.loc[col, stat])
+            if not ((math.isnan(got) and math.isnan(want)) or abs(got - want) < 1e-9): failed.append(f"summary {stat} of {col} = {got}, want {want}")
+    if failed and keys and all("measure_list raises" in f for f in failed): key = tuple(sorted(set(keys)))
+    elif failed:
         if all(f.startswith("fill_missing=False") for f in failed): key = "list_metrics(fill_missing=False) fills defaults anyway"
         elif all(f.startswith("RMSE/MAE") for f in failed) and ok_as: key = "RMSE/MAE decomposed counts include ignored pairs"
         elif all(f.startswith(("RMSE/MAE", "fill_missing=False")) for f in failed) and ok_as: key = "RMSE/MAE decomposed counts include ignored pairs + fill_missing flag ignored"
-    classes = [case["metric"]]
-    if two: classes.append("projected key")
-    if any(p is None for l in used for p in l["preds"]): classes.append("missing predictions ignored")
-    if any(l["user"] not in have_test for l in used): classes.append("output without test list")
-    if any(not l["preds"] for l in used): classes.append("empty list")
     return Outcome(corr, not failed, tuple(classes), {"failed": failed[:8], "per_list": per, "global": gl, "as_is": as_is, "repaired": rep}, key)
 
 def shrink(case: dict):
+    case = _norm(dict(case, lists=[dict(l) for l in case["lists"]]))
     for i in range(len(case["lists"])):
         if len(case["lists"]) > 1: c = dict(case); c["lists"] = case["lists"][:i] + case["lists"][i + 1:]; yield c
     for i, l in enumerate(case["lists"]):
         for j in range(len(l["preds"])):
-            l2 = dict(l); l2["preds"] = l["preds"][:j] + l["preds"][j + 1:]; l2["truth"] = l["truth"][:j] + l["truth"][j + 1:]
+            l2 = dict(l); l2["preds"] = l["preds"][:j] + l["preds"][j + 1:]; l2["items"] = l["items"][:j] + l["items"][j + 1:]
+            c = dict(case); c["lists"] = case["lists"][:i] + [l2] + case["lists"][i + 1:]; yield c
+        for j in range(len(l["truth"])):
+            l2 = dict(l); l2["truth"] = l["truth"][:j] + l["truth"][j + 1:]
             c = dict(case); c["lists"] = case["lists"][:i] + [l2] + case["lists"][i + 1:]; yield c
 
 SPEC = CheckSpec(
-    pid="C07", theorems=["LK.Pred.C07_PredictMetrics_global_is_pooled"], correspondence_ops=["c07.global"],
-    nontrivial_rule="distinct analyses reaching ≥1 of: RMSE / MAE, projected key, ignored missing predictions, output without test list, empty list",
+    pid="C07", theorems=[], correspondence_ops=["c07.global"],
+    nontrivial_rule="distinct analyses reaching ≥1 of: RMSE / MAE, projected key, missing predictions, scored item without truth, rated item not scored, output without test list, empty list, empty test list, error disposition",
     budgets={"quick": 250, "thorough": 8000}, gen=gen, run=run, shrink=shrink)
